@@ -302,6 +302,7 @@ def replay(case, conc, cand=None):
 
 
 META = {
+    "glue": ['groupby_lib/groupby/core.py::apply', 'groupby_lib/groupby/core.py::std', 'groupby_lib/groupby/core.py::var'],
     "bounds": {"quick": {"var/std": "N=4,G=2, a third of the 81 code sequences x every null pattern", "apply": "N=4,G=3, all 256 code sequences, 1-2 value columns, a fifth of the masks"},
                "thorough": {"var/std": "N=5,G=2, all code sequences x every null pattern", "apply": "N=5,G=3"}},
     "enumerated": ["code sequence and null pattern (counts become constants: the variance check is then a polynomial identity)", "ddof", "masks for apply", "number of value columns"],
